@@ -258,6 +258,7 @@ type nnsOp struct {
 	Entry   bool   `json:"entry,omitempty"`   // the signers (not the payer) sign with scope CalledByEntry: witnesses only when NNS is called directly
 	Mode    int    `json:"mode,omitempty"`    // transfer to pF: what its onNEP11Payment does (1 forward to Dest, 2 send back, 3 read and record, 4 refuse)
 	Dest    int    `json:"dest,omitempty"`    // Mode 1: the account the name is forwarded to
+	OneArg  bool   `json:"onearg,omitempty"`  // renew: the one-argument overload renew(name) (= one year)
 }
 
 func (o nnsOp) String() string {
@@ -271,6 +272,9 @@ func (o nnsOp) String() string {
 		a = []string{fmt.Sprint("to=", o.Owner), o.Name}
 	case "renew":
 		a = []string{o.Name, fmt.Sprint(o.Years)}
+		if o.OneArg {
+			a = []string{o.Name} // renew/1
+		}
 	case "setAdmin":
 		a = []string{o.Name, fmt.Sprint("admin=", o.Owner)}
 	case "addRecord":
@@ -326,6 +330,9 @@ func (n *nnsEnv) args(o nnsOp) []any {
 		}
 		return []any{n.addrArg(o.Owner), o.Name, nil}
 	case "renew":
+		if o.OneArg {
+			return []any{o.Name} // the overload with one argument: one year
+		}
 		return []any{o.Name, o.Years}
 	case "setAdmin":
 		return []any{o.Name, n.addrArg(o.Owner)}
@@ -794,7 +801,7 @@ var nnsNames = []nnsName{
 }
 
 // well-formed names that are not observed
-var nnsExtraValid = append(append([]string{"net", "a.net", "v.w.x.a.com"}, nnsRepeatNames...), nnsLong59, nnsLong255, nnsLong254)
+var nnsExtraValid = append(append([]string{"net", "a.net", "v.w.x.a.com", "v.w.x.b.com"}, nnsRepeatNames...), nnsLong59, nnsLong255, nnsLong254)
 
 // names of the maximum length (255) and one below, under the 2nd-level name nnsLong59
 var (
@@ -975,6 +982,7 @@ type nnsGen struct {
 	rotAt  int            // step at which the committee is re-elected (0 = never)
 	scn    bool           // inject the "expire -> parent gains deeper records -> re-register" scenario
 	cn     bool           // inject the CNAME-chain scenario
+	chain  bool           // inject the one-expired-link chain scenario
 	lim    bool           // inject the record-limit scenario
 	queue  []func() nnsOp // scripted ops, emitted before anything random
 }
@@ -1330,6 +1338,10 @@ func (g *nnsGen) scenario() {
 	if r.Intn(2) == 0 {
 		q(func() nnsOp { return mk(nnsOp{Kind: "addRecord", Name: S, Typ: tTXT, Data: "t1"}, soon(), own(S)) })
 	}
+	if r.Intn(2) == 0 {
+		adm := r.Intn(3) // an admin that the take-over must not inherit
+		q(func() nnsOp { return mk(nnsOp{Kind: "setAdmin", Name: S, Owner: adm}, soon(), own(S), adm) })
+	}
 	// the first op at/around the expiration instant of S: a record of a deeper name
 	dt := []int64{-1, 0, 0, 1}[r.Intn(4)]
 	kD := r.Intn(2)
@@ -1415,6 +1427,70 @@ func (g *nnsGen) limitScenario() {
 	op(nnsOp{Kind: "addRecord", Name: name, Typ: typ, Data: val(0)})
 }
 
+// chainScenario: a chain zone -> sub -> subsub with three owners in which exactly
+// one link (any position) is short-lived; after its expiry every record and
+// management method on the deeper names is tried by each link's owner.
+func (g *nnsGen) chainScenario() {
+	r := g.r
+	ch := []string{"a.com", "x.a.com", "w.x.a.com"}
+	if r.Intn(2) == 0 {
+		ch = []string{"b.com", "x.b.com", "w.x.b.com"}
+	}
+	owners := r.Perm(3)
+	dead := r.Intn(3)
+	q := func(f func() nnsOp) { g.queue = append(g.queue, f) }
+	for i, n := range ch {
+		i, n := i, n
+		q(func() nnsOp {
+			ex := int64(9 * 31536000)
+			if i == dead {
+				ex = 2
+			}
+			o := nnsOp{Kind: "register", Name: n, Owner: owners[i], Email: "e@x.io", Refresh: 1, Retry: 2, Expire: ex, TTL: 4, T: g.now + 1}
+			o.Signers, o.Via = signFor([]int{owners[i], g.book.get(nnsParent(n)).owner})
+			return o
+		})
+	}
+	q(func() nnsOp {
+		o := nnsOp{Kind: "addRecord", Name: ch[2], Typ: tTXT, Data: "t1", T: g.now + 1}
+		o.Signers, o.Via = signFor([]int{g.book.get(g.book.token(ch[2], o.T)).owner})
+		return o
+	})
+	first := true
+	for k := 0; k < 10; k++ {
+		q(func() nnsOp {
+			t := g.now + 1 + uint64(r.Intn(5))
+			if first {
+				first = false
+				if e := g.book.get(ch[dead]).exp; g.book.get(ch[dead]).registered && e > g.now {
+					t = e + uint64(r.Intn(2))
+				}
+			}
+			name := ch[1+r.Intn(2)]
+			var o nnsOp
+			switch r.Intn(7) {
+			case 0:
+				o = nnsOp{Kind: "addRecord", Name: name, Typ: tTXT, Data: []string{"t2", "t3"}[r.Intn(2)]}
+			case 1:
+				o = nnsOp{Kind: "setRecord", Name: name, Typ: tTXT, ID: 0, Data: "t3"}
+			case 2:
+				o = nnsOp{Kind: "deleteRecords", Name: name, Typ: tTXT}
+			case 3:
+				o = nnsOp{Kind: "updateSOA", Name: name, Email: "ops@nspcc.ru", Refresh: 5, Retry: 6, Expire: 7, TTL: 8}
+			case 4:
+				o = nnsOp{Kind: "renew", Name: name, Years: 1, OneArg: r.Intn(2) == 0}
+			case 5:
+				o = nnsOp{Kind: "setAdmin", Name: name, Owner: ownNull}
+			default:
+				o = nnsOp{Kind: "addRecord", Name: "v." + ch[2], Typ: tTXT, Data: "t4"}
+			}
+			o.T = t
+			o.Signers, o.Via = signFor([]int{owners[r.Intn(3)]})
+			return o
+		})
+	}
+}
+
 // subScenario: records of sub-names that are NOT registered themselves, one
 // and two levels below a registered zone: the rules are per NAME — single
 // CNAME, duplicates, setRecord ids — whatever the zone itself and sibling
@@ -1460,6 +1536,7 @@ func (g *nnsGen) subScenario() {
 		op(nnsOp{Kind: "addRecord", Name: n, Typ: tTXT, Data: "t1"})
 	}
 	op(nnsOp{Kind: "setRecord", Name: sib, Typ: tTXT, ID: 0, Data: "t2"})
+	op(nnsOp{Kind: "setRecord", Name: s2, Typ: tTXT, ID: 0, Data: "t1"}) // the value it holds: the zone's serial still moves
 	op(nnsOp{Kind: "setRecord", Name: s2, Typ: tTXT, ID: 1, Data: "t2"})
 	op(nnsOp{Kind: "deleteRecords", Name: []string{s1, zone}[r.Intn(2)], Typ: tCNAME})
 	cn(s1, "b.com")
@@ -1543,6 +1620,9 @@ func (g *nnsGen) next(step int) nnsOp {
 	if step == 6 && g.lim {
 		g.limitScenario()
 	}
+	if step == 6 && g.chain {
+		g.chainScenario()
+	}
 	if step == 6 && g.scn && g.prop == "C12" {
 		g.subScenario()
 	}
@@ -1564,7 +1644,7 @@ func (g *nnsGen) next(step int) nnsOp {
 		case 1:
 			o = nnsOp{T: t, Kind: "registerTLD", Name: []string{"net", "org", "com"}[g.r.Intn(3)], Email: "e@x.io", Refresh: 1, Retry: 2, Expire: []int64{0, 5, 3600}[g.r.Intn(3)], TTL: 4}
 		case 2, 3:
-			o.Kind, o.Name, o.Years = "renew", []string{"com", "org"}[g.r.Intn(2)], 1
+			o.Kind, o.Name, o.Years, o.OneArg = "renew", []string{"com", "org"}[g.r.Intn(2)], 1, g.r.Intn(2) == 0
 		default:
 			o = nnsOp{T: t, Kind: "updateSOA", Name: []string{"com", "org"}[g.r.Intn(2)], Email: "ops@nspcc.ru", Refresh: 5, Retry: 6, Expire: 7, TTL: int64(8 + g.r.Intn(5))}
 		}
@@ -1691,6 +1771,9 @@ func (g *nnsGen) next(step int) nnsOp {
 		case 1:
 			y = int64(1 + g.r.Intn(10))
 		}
+		if g.r.Intn(3) == 0 {
+			return mk(nnsOp{Kind: "renew", Name: name, Years: 1, OneArg: true}, g.role(name)) // renew/1
+		}
 		return mk(nnsOp{Kind: "renew", Name: name, Years: y}, g.role(name))
 	case 4:
 		name := g.regName()
@@ -1727,7 +1810,11 @@ func (g *nnsGen) next(step int) nnsOp {
 		if g.r.Intn(8) == 0 {
 			id = []int64{-1, 15, 16, 255, 256, -128, -129, 5}[g.r.Intn(8)]
 		}
-		return mk(nnsOp{Kind: "setRecord", Name: name, Typ: typ, ID: id, Data: g.data(typ)}, g.role(g.book.token(name, t)))
+		data := g.data(typ)
+		if cur := g.mon.recs[rkeyOf(g.book.token(name, t), name, typ)]; id >= 0 && int(id) < len(cur) && g.r.Intn(4) == 0 {
+			data = cur[id] // the value the record already holds: still a mutation (SOA serial)
+		}
+		return mk(nnsOp{Kind: "setRecord", Name: name, Typ: typ, ID: id, Data: data}, g.role(g.book.token(name, t)))
 	case 7:
 		name := g.recName()
 		typ := g.typ()
@@ -1963,6 +2050,21 @@ func nnsCorpus1(prop string) [][]nnsOp {
 		reg("w.x.a.com", pC, 5, pC, pU1)
 		reg("w.x.a.com", pC, 5, pC)
 		out = append(out, h)
+		// 8: take-over of an expired name that had an admin: the new name state starts
+		// without one; renew/1 = one year
+		start()
+		reg("a.com", pU0, 2, pU0) // t=3, exp 2003
+		add(nnsOp{Kind: "setAdmin", Name: "a.com", Owner: pU1}, pU0, pU1)
+		reg("x.a.com", pU0, 2, pU0)
+		add(nnsOp{Kind: "setAdmin", Name: "x.a.com", Owner: pC}, pU0, pC)
+		at(2003)
+		tick()
+		reg("a.com", pU2, 3600, pU2)                                          // take-over: admin gone
+		add(nnsOp{Kind: "renew", Name: "a.com", Years: 1, OneArg: true}, pU1) // the former admin
+		add(nnsOp{Kind: "renew", Name: "a.com", Years: 1, OneArg: true}, pU2)
+		reg("x.a.com", pU1, 3600, pU2, pU1) // one level down
+		reg("a.com", pU2, 3600, pU2)        // live: false, nothing changes
+		out = append(out, h)
 		// 7: receiver contracts that call back into NNS from onNEP11Payment: forward,
 		// send back, read during the callback, refuse; nested receivers
 		start()
@@ -2085,6 +2187,8 @@ func nnsCorpus1(prop string) [][]nnsOp {
 				rec("deleteRecords", "a.com", tA, 0, "", ps...)
 				add(nnsOp{Kind: "updateSOA", Name: "a.com", Email: "ops@nspcc.ru", Refresh: 5, Retry: 6, Expire: 7, TTL: 8}, ps...)
 				add(nnsOp{Kind: "renew", Name: "a.com", Years: 1}, ps...)
+				add(nnsOp{Kind: "renew", Name: "a.com", Years: 1, OneArg: true}, ps...) // every overload
+				add(nnsOp{Kind: "renew", Name: "com", Years: 1, OneArg: true}, ps...)
 				reg("x.a.com", pU2, 3600, append([]int{pU2}, ps...)...)
 				add(nnsOp{Kind: "setAdmin", Name: "a.com", Owner: pU2}, ps...)
 				add(nnsOp{Kind: "transfer", Name: "a.com", Owner: pU2}, ps...) // (by the owner: while an admin is appointed)
@@ -2160,6 +2264,51 @@ func nnsCorpus1(prop string) [][]nnsOp {
 			sp(regOp("x.a.com", pU2), c.sponsor, c.entry, c.via, append([]int{pU2}, c.ps...)...)
 			sp(nnsOp{Kind: "transfer", Name: "a.com", Owner: pU2}, c.sponsor, c.entry, c.via, c.ps...)
 		}
+		out = append(out, h)
+		// chains a.com -> x.a.com -> w.x.a.com (three owners) with exactly ONE link expired, each
+		// position: while an ancestor is expired nobody — no ancestor's owner or admin, not its
+		// own owner — can touch the deepest name ("parent domain has expired"); when it is the
+		// deepest name itself that expired, its records go under the live parent
+		for _, dead := range []string{"x.a.com", "a.com", "w.x.a.com"} {
+			start()
+			life := func(n0 string) int64 {
+				if n0 == dead {
+					return 3
+				}
+				return 9 * Y
+			}
+			reg("a.com", pU0, life("a.com"), pU0)              // t=3
+			reg("x.a.com", pU1, life("x.a.com"), pU0, pU1)     // t=4
+			reg("w.x.a.com", pU2, life("w.x.a.com"), pU1, pU2) // t=5
+			add(nnsOp{Kind: "setAdmin", Name: "a.com", Owner: pC}, pU0, pC)
+			rec("addRecord", "w.x.a.com", tTXT, 0, "t1", pU2)
+			at(3006) // all short lives are over
+			for _, ps := range [][]int{{pU0}, {pU1}, {pU2}, {pC}, {pCmt}, {pU0, pU1, pU2}} {
+				rec("addRecord", "w.x.a.com", tTXT, 0, "t2", ps...)
+				rec("setRecord", "w.x.a.com", tTXT, 0, "t3", ps...)
+				rec("deleteRecords", "w.x.a.com", tTXT, 0, "", ps...)
+				add(nnsOp{Kind: "updateSOA", Name: "w.x.a.com", Email: "ops@nspcc.ru", Refresh: 5, Retry: 6, Expire: 7, TTL: 8}, ps...)
+				add(nnsOp{Kind: "renew", Name: "w.x.a.com", Years: 1, OneArg: true}, ps...)
+				add(nnsOp{Kind: "setAdmin", Name: "w.x.a.com", Owner: ownNull}, ps...)
+				rec("addRecord", "v.w.x.a.com", tTXT, 0, "t4", ps...)
+			}
+			out = append(out, h)
+		}
+		// renew/1 and renew/2 by the owner up to the ten-year cap; strangers and owners of
+		// other names renew nothing, whatever the overload
+		start()
+		reg("a.com", pU0, 3600, pU0)
+		reg("b.com", pU1, 3600, pU1)
+		for i := 0; i < 10; i++ {
+			add(nnsOp{Kind: "renew", Name: "a.com", Years: 1, OneArg: true}, pU0) // the 10th goes beyond ten years
+		}
+		for _, ps := range [][]int{{pU1}, {pU2}, {pCmt}, {}, {pC}} {
+			add(nnsOp{Kind: "renew", Name: "a.com", Years: 1, OneArg: true}, ps...)
+			add(nnsOp{Kind: "renew", Name: "b.com", Years: 1, OneArg: true}, append([]int{pU0}, ps[:0]...)...)
+			add(nnsOp{Kind: "renew", Name: "com", Years: 1, OneArg: true}, ps...)
+		}
+		add(nnsOp{Kind: "renew", Name: "b.com", Years: 9}, pU1)
+		add(nnsOp{Kind: "renew", Name: "b.com", Years: 1, OneArg: true}, pU1)
 		out = append(out, h)
 		// a 3rd-level name expires while its parent lives: re-registration needs the parent's
 		// owner/admin again; registering a LIVE name once more (by its owner) changes nothing
@@ -2243,7 +2392,15 @@ func nnsCorpus1(prop string) [][]nnsOp {
 		rec("setRecord", "a.com", tTXT, 0, "t2", pU0)
 		rec("addRecord", "a.com", tTXT, 0, "t2", pU0)
 		rec("setRecord", "a.com", tTXT, 2, "t3", pU0)
+		// mutations that look like no-ops still refresh the zone's SOA serial (each op is a later block)
+		rec("setRecord", "a.com", tTXT, 1, "t2", pU0)   // the value it already holds
+		rec("deleteRecords", "a.com", tA, 0, "", pU0)   // a type without records
+		rec("addRecord", "y.a.com", tTXT, 0, "t1", pU0) // a sub-name: the zone's serial
+		rec("setRecord", "y.a.com", tTXT, 0, "t1", pU0) // same value again
+		rec("deleteRecords", "y.a.com", tAAAA, 0, "", pU0)
 		rec("deleteRecords", "a.com", tTXT, 0, "", pU0)
+		rec("deleteRecords", "a.com", tTXT, 0, "", pU0) // already empty
+		rec("addRecord", "a.com", tTXT, 0, "t1", pU0)   // re-add
 		out = append(out, h)
 		// 2: 17th record, second CNAME
 		start()
@@ -3084,7 +3241,8 @@ func (m *nnsMon) step(o nnsOp, ob *nnsObs) {
 							m.violate("C12: getAllRecords(%s): %d records of type %s", r.Name, c, ty)
 						}
 					}
-					// SOA serial after a record mutation
+					// SOA serial of the zone (the token, also for records of its sub-names) after every
+					// accepted record mutation, no-op-looking ones included: the op's block time
 					if effect && nm == tokPre && (o.Kind == "addRecord" || o.Kind == "setRecord" || o.Kind == "deleteRecords") {
 						okSerial := false
 						for _, rc := range v.recs {
@@ -3184,6 +3342,12 @@ func runNNSFamily(t *testing.T, prop string) {
 				}
 				if prop == "C12" && nops < 42 {
 					nops = 42 // + the sub-name scenario
+				}
+			}
+			if prop == "C11" && hidx%6 == 3 {
+				g.chain = true
+				if nops < 26 {
+					nops = 26
 				}
 			}
 			if prop == "C12" && hidx%3 == 2 {
@@ -3366,7 +3530,10 @@ func runNNSFamily(t *testing.T, prop string) {
 	// several files (the driver evaluates them in parallel); each carries the whole pool
 	// (long generated histories and short corpus ones are dealt out round-robin so
 	// that the files take about equally long)
-	const chunk = 4
+	chunk := 4
+	if Tier() == "thorough" {
+		chunk = 16 // fewer, longer coqc runs: the start-up cost per file matters at this volume
+	}
 	nf := (len(cases) + chunk - 1) / chunk
 	for k := 0; k < nf; k++ {
 		var part []string
